@@ -343,6 +343,12 @@ def r7(ctx):
             ctx.check(bool(hits), "answered@%s:TransportRequest::Error" % d.split("::")[-1], "an unparsable fragment is answered with an error response", body.where(g.edge[1]), bad_detail="the TransportRequest::Error arm of %s answers nothing" % d.split("::")[-1])
 
 
+def r_plumb(ctx):
+    """'Each transmitted fragment fits the configured transmit size': the session's solicited / unsolicited transmit buffer sizes
+    (and every other session parameter) come from the like-named configuration field."""
+    namesake_plumbing(ctx, ctx.prog, r"^(<)?dnp3::outstation::", 60, "plumbing")
+
+
 RULES = [
     ("C12.R1", "T8/T11", "sequence/UNS/FIR/FIN/CON provenance of every response header", r1),
     ("C12.R2", "T4", "no-response function codes and CONFIRM produce no response; all others do", r2),
@@ -351,4 +357,5 @@ RULES = [
     ("C12.R5", "T5/T8", "transmitted slices and cursors come from the tx buffers", r5),
     ("C12.R6", "T1-link", "no WriteError unwrap on response-building paths", r6),
     ("C12.R7", "T4/T2-region", "no request is swallowed: confirm waits end on / answer every fragment that needs a reply", r7),
+    ("C12.R8", "T8-namesake", "session parameters (transmit buffer sizes, limits) are plumbed from the like-named configuration field", r_plumb),
 ]
